@@ -860,7 +860,11 @@ void XdlEncoder::_encode(const Var& v)
 		break;
 	}
 
+#ifdef ASL_VERIF
+	if (_out.length() > asl_verif_knob("xdl.write_flush", 16000))
+#else
 	if (_out.length() > 16000)
+#endif
 		_sink->write(_out);
 }
 
